@@ -5,6 +5,8 @@
 (*   src "compiled"  - tld_list[] as linked into the library (dumped through the exported symbol)         *)
 (*   src "generated" - the rows of src/auto_tld.c freshly produced by util/gentld.pl from the CSV          *)
 (*   src "domains"   - the lines of data/tld-domains.txt freshly produced by util/gen_utf8_pass_test.pl   *)
+(*   src "uconv"     - the IDN converter's A-label of each U-label row of data/raw.csv (the two CSVs name  *)
+(*                     the same TLDs in the same order)                                                    *)
 (* plus "lookup" events: is_tld called on every row's label and on non-rows.                              *)
 EXTENDS Tld, Json, IOUtils, TLC
 VARIABLES l, seen      \* seen[src] = number of row events of that program consumed so far
@@ -12,9 +14,11 @@ VARIABLES l, seen      \* seen[src] = number of row events of that program consu
 TraceLog == ndJsonDeserialize(IOEnv.TRACE)
 N == Len(TraceLog)
 
-Srcs == {"compiled", "generated", "domains"}
+Srcs == {"compiled", "generated", "domains", "uconv"}
 RowBody(ev, i) ==
   IF ev.src = "domains" THEN i \in 1..NRows /\ ev.d = TldU[i] \o <<DOT>> \o TldU[i]
+  \* the U-label of row i of data/raw.csv converts (len = the converter's code) to the A-label of row i of data/punycode.csv
+  ELSE IF ev.src = "uconv" THEN i \in 1..NRows /\ ev.d = TldU[i] /\ ev.len = 0 /\ ev.a = TldRows[i][1]
   ELSE IF ev.term = 1 THEN i = NRows + 1 /\ ev.len = 0 /\ ev.type = 0      \* the { NULL, 0, 0 } terminator right after the last row
   ELSE /\ i \in 1..NRows
        /\ ev.d = TldRows[i][1]                     \* same label, same order as the CSV
